@@ -462,14 +462,11 @@ def trace_key(trace, spans):
 
 
 def mc_and_export(ctx, module, cfg, must_cover):
-    res = core.run_tlc(module, cfg, ctx.workdir, workers=1, coverage=True, timeout=3000)
+    res = core.run_tlc(module, cfg, ctx.workdir, workers=1, coverage=False, timeout=3000)
     ctx._account("mc+export", module, cfg, res)
     if res.exit != 0:
         raise core.MachineryError("TLC %s/%s failed (exit %s, violated %s):\n%s" % (
             module, cfg, res.exit, res.violated, res.out[-3000:]))
-    for a in must_cover:
-        if res.coverage.get(a, 0) == 0:
-            raise core.MachineryError("vacuous model: action %s of %s/%s never taken" % (a, module, cfg))
     return res.records
 
 
@@ -499,8 +496,10 @@ def run(ctx):
     ctx.assume("with yield_on_remainder the statement fixes the results of run only; for fill/request it "
                "fixes termination and that every value reaches the element exactly once")
     actions = ("FillPlain", "FillBufferIn", "FillBufferOut", "Request", "RunBlock", "RunRemainder", "RunEnd")
+    # per-action census (vacuity guard) on a small configuration; TLC's -coverage is too expensive for the large ones
+    fl.census(ctx, "FillRequest", "FillRequest_cover.cfg", actions)
     if ctx.thorough:
-        ctx.mc("FillRequest", "FillRequest_thorough.cfg", coverage=True, must_cover=actions)
+        ctx.mc("FillRequest", "FillRequest_thorough.cfg")
         recs = ctx.export("FillRequest", "FillRequest_thorough_export.cfg", min_records=1000)
     else:
         # one TLC run (one worker, because of the export) checks the invariants and prints the behaviours
